@@ -243,6 +243,9 @@ def _check_main(ctx, rep: Report):
 def check(ctx, rep):
     from . import metarules, shared
     _check_main(ctx, rep)
+    from . import metarules, r5rules
+    r5rules.options_independent(ctx, rep, "C07.OPTS")
+    r5rules.mutate_value_inplace_sites(ctx, rep, "C07.MV")
     metarules.frozen_error_bases(ctx, rep, "C07.EXC")
     metarules.missing_default_contradiction(ctx, rep, "C07.INH")
     metarules.for_class_rule(ctx, rep, "C07.META", ("mro",))
